@@ -309,7 +309,8 @@ def main():
     evdir = os.path.join(ROOT, 'evidence') if os.path.realpath(repo) == '/repo' else os.path.join(os.environ.get('GOCV_TMP', '/var/tmp'), 'gocv-evidence')
     os.makedirs(evdir, exist_ok=True)
     if update:
-        lock[pid] = {nm: 'discharged' for nm in sorted(discharged) if allobs[nm][1]['time_s'] <= (opts['timeout'] / 1000.0) * 0.5 * max(1, allobs[nm][1]['instances'])}
+        # new names are claimed only when they discharge well inside the time limit; a name that was claimed before stays claimed when it discharges
+        lock[pid] = {nm: 'discharged' for nm in sorted(discharged) if nm in plock or allobs[nm][1]['time_s'] <= (opts['timeout'] / 1000.0) * 0.5 * max(1, allobs[nm][1]['instances'])}
         json.dump(lock, open(LOCK, 'w'), indent=0, sort_keys=True)
         print('lock updated: %d obligations for %s' % (len(lock[pid]), pid))
         plock = lock[pid]
